@@ -9,7 +9,7 @@
 //!   row id=<n> r=<n|-> t=<ms> | ref src=<n> dst=<n> t=<ms> | delrow id=<n> t=<ms> | delref src=<n> dst=<n> t=<ms>
 //! Connection ops:
 //!   open c=<n> | auth c=<n> k=<key> ready=0|1 | now t=<ms>
-//!   q c=<n> kind=<Kind> [r=<room>] [ids=a,b] [srcs=id:date,…] [ent=0|1] [date=<ms>]
+//!   q c=<n> kind=<Kind> [r=<room>] [ids=a,b] [srcs=id:date,…] [ent=0|1|2|3: 2,3 = hostile names] [date=<ms>]
 //! Observations: ok | err:<class> | silent | refused | identity | fingerprint | rooms a,b | data <room> <items>
 //! items: `<room|->:<id>` sorted; ids are the op file's aliases (`?` for an id the harness never created).
 use discret::verif_hooks::clock;
@@ -497,6 +497,10 @@ impl World {
         let ent = || match kv.get("ent").map(|s| s.as_str()) {
             Some("1") => Some(if self.person.is_empty() { "1".to_string() } else { self.person.clone() }),
             Some("0") => Some("zz".to_string()),
+            // an entity name no data model can produce: a quote, an OR, the name of the real entity — nothing is stored
+            // under that name, so nothing may come back, from this room or any other
+            Some("2") => Some(format!("zz' OR entity = '{}", if self.person.is_empty() { "1" } else { &self.person })),
+            Some("3") => Some(format!("zz' OR '1'='1")),
             _ => None,
         };
         let date = || get_i(kv, "date");
